@@ -30,6 +30,18 @@ def _is_f(e, f):
     return e[0] == "field" and e[2] == f
 
 
+def Affine_root(body, place):
+    """owning local of a place reached through reference temporaries"""
+    from analysis.affine import Affine
+    cache = body.__dict__.setdefault("_aff_root", {})
+    if "a" not in cache:
+        class _A(Affine):
+            def _run(self):
+                pass
+        cache["a"] = _A(body, None)
+    return cache["a"].root_local(place)
+
+
 def run(facts, R):
     for f in ("chunks", "bytes_held", "capacity_bytes"):
         facts.require_field(RING, f)
@@ -96,6 +108,17 @@ def run(facts, R):
             seen_rows.add("empty")
         elif const_val(val) == 1:
             ok = has_cmp(fs, "Eq", lambda a: _is_f(a, "offset") and a[1][0] != "arg", lambda x: x[0] == "arg" and x[1] == 2)
+            if not ok:
+                # chunks.iter().any(|c| c.offset == offset)
+                for f in fs:
+                    e = f["expr"]
+                    if f["val"] is True and is_call(e, "any") and len(e[2]) == 2 and "chunks" in render(e[2][0]) and e[2][1][0] == "agg" and e[2][1][1].startswith("closure:"):
+                        cb_ = facts.bodies.get(e[2][1][1].split(":", 1)[1])
+                        if cb_ is not None:
+                            cvv = Sym(cb_).local(0)
+                            from rules.common import norm_cmp
+                            nc = norm_cmp(cvv, True)
+                            ok = nc is not None and nc[0] == "Eq" and any(_is_f(x, "offset") for x in nc[1:]) and any("offset" in render(x) and not _is_f(x, "offset") or (x[0] == "field" and x[1][0] == "arg" and x[1][1] == 1) for x in nc[1:])
             R.check(ok, "covers-table", cv.path, "row:chunk-boundary",
                     "covers returns true on a path not guarded by `chunk.offset == offset`; guards: %s" % texts(fs), span,
                     "true only under chunk.offset == offset")
@@ -119,7 +142,12 @@ def run(facts, R):
     hv = hsym.local(0)
     okh = is_call(hv, "map") and is_call(hv[2][0], "back") and _is_f(hv[2][0][2][0], "chunks")
     R.check(okh, "covers-table", he.path, "trailing-edge-source", "highest_end_offset is %s, expected chunks.back().map(end)" % render(hv), he.span, render(hv))
-    hc = facts.body(RING + "::highest_end_offset::{closure#0}")
+    # the mapped function: the closure of highest_end_offset, or a function item passed to map (e.g. RingChunk::end_offset)
+    hc = facts.bodies.get(RING + "::highest_end_offset::{closure#0}")
+    if hc is None and okh and len(hv[2]) > 1 and hv[2][1][0] == "fn":
+        hc = facts.bodies.get(hv[2][1][1])
+    if hc is None:
+        raise Exception("the function mapped over chunks.back() in highest_end_offset was not found")
     cs = Sym(hc)
     v = cs.local(0)
     txt = render(v)
@@ -150,11 +178,39 @@ def run(facts, R):
             break
         cur = cur[2][0]
     ok_chain = ok_chain and "filter" in chain and src is not None and _is_f(src, "chunks") and chain.count("filter") == 1
-    R.check(ok_chain, "replay-filter", rf.path, "chain",
-            "replay_from is %s: expected chunks.iter().filter(pred).cloned().collect() with no skipping/reordering adapter" % render(v),
-            rf.span, "chain=" + "<-".join(chain))
+    loop_form = False
+    out_local = None
+    if not ok_chain and v[0] == "call" and v[1].rsplit("::", 1)[-1] in ("new", "with_capacity") and "Vec" in v[1]:
+        for d in rf.defs_of(0):
+            if d[0] == "assign" and "use" in d[3] and op_place(d[3]["use"]) is not None and not op_place(d[3]["use"])["p"]:
+                out_local = op_place(d[3]["use"])["l"]
+    if out_local is not None:
+        v = ("local", out_local, None)
+    if not ok_chain and v[0] == "local":
+        # the same selection as an explicit loop: for c in &self.chunks { if c.offset >= offset { out.push(c.clone()) } }
+        pushes = [(i, t) for i, t in rf.calls() if t["callee"]["name"] in ("push", "push_back") and op_place(t["args"][0]) is not None and
+                  Affine_root(rf, op_place(t["args"][0])) == v[1]]
+        other = [t["callee"]["name"] for i, t in rf.calls() if t["args"] and op_place(t["args"][0]) is not None and Affine_root(rf, op_place(t["args"][0])) == v[1]
+                 and t["callee"]["name"] not in ("push", "push_back", "with_capacity", "new", "reserve")]
+        iters = [(i, t) for i, t in rf.calls() if t["callee"]["name"] in ("iter", "into_iter") and _is_f(rs.op(t["args"][0]), "chunks")]
+        adapters = [t["callee"]["name"] for i, t in rf.calls() if t["callee"].get("trait") == "std::iter::Iterator" and t["callee"]["name"] != "next"]
+        if len(pushes) == 1 and not other and len(iters) == 1 and not adapters:
+            pi, pt = pushes[0]
+            item = rs.op(pt["args"][1])
+            from_iter = any(is_call(x, "next") for x in walk(item))
+            fsp = facts_at(rf, rs, facts, pi)
+            ge = has_cmp(fsp, "Le", lambda a: a[0] == "arg" and a[1] == 2, lambda x: _is_f(x, "offset") and any(is_call(y, "next") for y in walk(x)))
+            loop_form = from_iter and ge
+            R.check(loop_form, "replay-filter", rf.path, "chain", "replay loop pushes %s under %s: expected every chunk with chunk.offset >= offset, in ring order" % (render(item)[:80], texts(fsp)[-2:]),
+                    pt.get("span"), "for c in chunks { if c.offset >= offset { push(c.clone()) } }")
+    if not loop_form:
+        R.check(ok_chain, "replay-filter", rf.path, "chain",
+                "replay_from is %s: expected chunks.iter().filter(pred).cloned().collect() with no skipping/reordering adapter" % render(v),
+                rf.span, "chain=" + "<-".join(chain))
     fc = facts.bodies.get(RING + "::replay_from::{closure#0}")
-    if fc is None:
+    if loop_form:
+        pass
+    elif fc is None:
         R.bad("replay-filter", rf.path, "predicate", "filter predicate closure not found")
     else:
         fv = Sym(fc).local(0)
